@@ -68,8 +68,9 @@ def run(ck: Checker):
                 place.add(n.id)
         # marker tests on z
         marker = {}
+        mine = reachable(cfg, [e.dst for e in cfg.normal_succ(g.id)], avoid={k.id for k in gets})
         for n in cfg.nodes:
-            if n.kind == 'test' and isinstance(n.ast, ast.Compare) and is_name(n.ast.left, z):
+            if n.id in mine and n.kind == 'test' and isinstance(n.ast, ast.Compare) and is_name(n.ast.left, z):
                 op, r = n.ast.ops[0], n.ast.comparators[0]
                 if isinstance(op, ast.Is) and is_none(r):
                     marker[n.id] = 'T'
